@@ -64,6 +64,7 @@ Section Interp.
   Variable cf : config.
   Variable locals : pyvars.            (* the running function's local variables (sym_table) *)
   Variable st : mstate.
+  Variable now : N.                    (* logical time of the running step (stamps written by hass.states) *)
 
   (* ast_name on an identifier without dots (Load): sym_table, then global_sym_table; nothing else applies to
      the identifiers used here (they are no builtins and no dot-less pyscript functions) -> EvalName *)
@@ -155,14 +156,14 @@ Section Interp.
         | Some parts =>                               (* Store context: the dotted name itself *)
             match parts with
             | [_; _] =>
-                match state_set (cf_host cf) (ms_ha st) parts (assign_value val) None [] with
+                match state_set (cf_host cf) now (ms_ha st) parts (assign_value val) None [] with
                 | Ok m => Ok (with_ha st m)
                 | Raise x => Raise x
                 end
             | [_; _; _] =>
                 match val with
                 | PVal v =>
-                    match state_setattr (cf_dev cf) (cf_host cf) (cf_svcargs cf) (ms_ha st) parts v with
+                    match state_setattr (cf_dev cf) (cf_host cf) now (cf_svcargs cf) (ms_ha st) parts v with
                     | Ok m => Ok (with_ha st m)
                     | Raise x => Raise x
                     end
@@ -195,7 +196,7 @@ Section Interp.
     end.
 
   Definition state_delete_st (parts : list ident) : res mstate :=
-    match state_delete (cf_host cf) (ms_ha st) parts with
+    match state_delete (cf_host cf) now (ms_ha st) parts with
     | Ok m => Ok (with_ha st m)
     | Raise x => Raise x
     end.
@@ -277,21 +278,21 @@ Definition capture (st : mstate) (cap : option N) (r : evalres) : res pyval * ms
       end
   end.
 
-Definition model_op (cf : config) (locals : pyvars) (st : mstate) (o : op) : res pyval * mstate :=
+Definition model_op (cf : config) (now : N) (locals : pyvars) (st : mstate) (o : op) : res pyval * mstate :=
   let H := cf_host cf in
   match o with
   | ORead e cap =>
       if dn_len_ok e then capture st cap (aeval_dn cf locals st e) else (Raise EUnmodelled, st)
   | OGet nm cap => capture st cap (of_res (state_get H (cf_svcargs cf) (ms_ha st) nm))
   | OAssign e rhs =>
-      if dn_len_ok e then lift_st st (assign_dn cf locals st e (eval_vexpr st rhs)) else (Raise EUnmodelled, st)
+      if dn_len_ok e then lift_st st (assign_dn cf locals st now e (eval_vexpr st rhs)) else (Raise EUnmodelled, st)
   | OSet nm value nattr kw =>
       let v := match value with Some x => eval_vexpr st x | None => PVal v_none end in
       let na := match nattr with Some (Some a) => Some a | _ => None end in
-      lift_ha st (state_set H (ms_ha st) nm v na kw)
-  | OSetattr nm v => lift_ha st (state_setattr (cf_dev cf) H (cf_svcargs cf) (ms_ha st) nm v)
-  | ODel e => if dn_len_ok e then lift_st st (delete_dn cf locals st e) else (Raise EUnmodelled, st)
-  | ODelete nm => lift_ha st (state_delete H (ms_ha st) nm)
+      lift_ha st (state_set H now (ms_ha st) nm v na kw)
+  | OSetattr nm v => lift_ha st (state_setattr (cf_dev cf) H now (cf_svcargs cf) (ms_ha st) nm v)
+  | ODel e => if dn_len_ok e then lift_st st (delete_dn cf locals st now e) else (Raise EUnmodelled, st)
+  | ODelete nm => lift_ha st (state_delete H now (ms_ha st) nm)
   | OExist nm => (Ok (PVal (h_bool H (state_exist (cf_svcargs cf) (ms_ha st) nm))), st)
   | OGetattr nm => (state_getattr (ms_ha st) (inr nm), st)
   | OGetattrSlot j => (state_getattr (ms_ha st) (inl (slot_get j (ms_slots st))), st)
@@ -300,26 +301,27 @@ Definition model_op (cf : config) (locals : pyvars) (st : mstate) (o : op) : res
   | OReadSlotAttr j k => (py_getattr (slot_get j (ms_slots st)) k, st)
   end.
 
-Definition ext_op (H : host) (st : mstate) (x : extop) : mstate :=
+Definition ext_op (H : host) (now : N) (st : mstate) (x : extop) : mstate :=
   match x with
-  | XSet e v a => with_ha st (ha_async_set H (ms_ha st) e v a)
+  | XSet e v a => with_ha st (ha_async_set H now (ms_ha st) e v a)
   | XRemove e => with_ha st (snd (ha_async_remove (ms_ha st) e))
   | XReg e => if mem_ename e (ms_svcs st) then st else with_svcs st (ms_svcs st ++ [e])
   | XUnreg e => with_svcs st (filter (fun e' => negb (ename_eqb e e')) (ms_svcs st))
   end.
 
 (* one step: output seen by the script (None for external steps) and the state afterwards *)
-Definition model_step (cf : config) (st : mstate) (s : step) : option (res pyval) * mstate :=
+Definition model_step (cf : config) (now : N) (st : mstate) (s : step) : option (res pyval) * mstate :=
   match s with
-  | SExt x => (None, ext_op (cf_host cf) st x)
-  | SScript locals o => let r := model_op cf locals st o in (Some (fst r), snd r)
+  | SExt x => (None, ext_op (cf_host cf) now st x)
+  | SScript locals o => let r := model_op cf now locals st o in (Some (fst r), snd r)
   end.
 
-Fixpoint run_model (cf : config) (st : mstate) (steps : list step) : list (option (res pyval)) * mstate :=
+(* a run starting at logical time [now]; every step takes one tick *)
+Fixpoint run_model (cf : config) (now : N) (st : mstate) (steps : list step) : list (option (res pyval)) * mstate :=
   match steps with
   | [] => ([], st)
   | s :: r =>
-      let o := model_step cf st s in
-      let rest := run_model cf (snd o) r in
+      let o := model_step cf now st s in
+      let rest := run_model cf (N.succ now) (snd o) r in
       (fst o :: fst rest, snd rest)
   end.
